@@ -151,6 +151,25 @@ func asFieldAddr(v ssa.Value) (fieldRef, bool) {
 // asFieldLoad: v is the value base.f (load through FieldAddr, or Field of a struct value)
 func asFieldLoad(v ssa.Value) (fieldRef, bool) {
 	v = origin(v)
+	if _, isP := v.(*ssa.Parameter); isP {
+		// parameter of a helper with several call sites: a field load if every call site passes the same field
+		if all := originsAll(v); len(all) > 1 {
+			var fr0 fieldRef
+			for i, o := range all {
+				if _, again := o.(*ssa.Parameter); again {
+					return fieldRef{}, false
+				}
+				fr, ok := asFieldLoad(o)
+				if !ok || (i > 0 && (fr.SName != fr0.SName || fr.Field != fr0.Field)) {
+					return fieldRef{}, false
+				}
+				if i == 0 {
+					fr0 = fr
+				}
+			}
+			return fr0, true
+		}
+	}
 	switch x := v.(type) {
 	case *ssa.UnOp:
 		if x.Op == token.MUL {
